@@ -147,6 +147,8 @@ func (w *_nodeRepr) LookupByString(key string) (datamodel.Node, error) {
 	switch stg := reprStrategy(w.schemaType).(type) {
 	case schema.StructRepresentation_Stringjoin:
 		return nil, datamodel.ErrWrongKind{TypeName: w.schemaType.Name() + ".Repr", MethodName: "LookupByString", AppropriateKind: datamodel.KindSet_JustMap, ActualKind: datamodel.Kind_String}
+	case schema.StructRepresentation_Tuple, schema.StructRepresentation_ListPairs:
+		return nil, datamodel.ErrWrongKind{TypeName: w.schemaType.Name() + ".Repr", MethodName: "LookupByString", AppropriateKind: datamodel.KindSet_JustMap, ActualKind: datamodel.Kind_List}
 	case schema.StructRepresentation_Map:
 		revKey := inboundMappedKey(w.schemaType.(*schema.TypeStruct), stg, key)
 		v, err := (*_node)(w).LookupByString(revKey)
